@@ -159,6 +159,10 @@ def receivers() -> Dict[str, Callable[[], Any]]:
     def sparse():
         return ttb.sptensor(np.array([[1, 2, 1], [0, 0, 0], [1, 1, 0], [0, 2, 1]]), np.array([[4.], [1.], [-2.], [3.]]), (2, 3, 2))
 
+    def sparse2():
+        # a matrix-shaped sparse tensor (the only shape the scipy converter accepts)
+        return ttb.sptensor(np.array([[2, 1], [0, 0], [1, 1]]), np.array([[4.], [1.], [-2.]]), (3, 2))
+
     def ktensor():
         return ttb.ktensor([np.array([[1., 2], [3, -4]]), np.array([[1., 0], [2, 1], [0, 3]]), np.array([[2., 1], [1, 1]])],
                            np.array([2., -1.]))
@@ -178,7 +182,7 @@ def receivers() -> Dict[str, Callable[[], Any]]:
 
     def counts():
         return ttb.tensor(np.array([1., 0, 3, 4, 0, 2, 1, 1, 0, 2, 5, 1]).reshape((2, 3, 2), order="F"))
-    return {"dense": dense, "slab": slab, "cube": cube, "sparse": sparse, "ktensor": ktensor, "ttensor": ttensor, "sum": sumt,
+    return {"dense": dense, "slab": slab, "sparse2": sparse2, "cube": cube, "sparse": sparse, "ktensor": ktensor, "ttensor": ttensor, "sum": sumt,
             "tenmat": tenmat, "sptenmat": sptenmat, "counts": counts}
 
 
@@ -238,6 +242,9 @@ def ops() -> Dict[str, Tuple[Tuple[str, ...], Callable]]:
     add("reshape_slab", ("slab",), lambda o, m: o.reshape((2, 3)))
     add("to_tenmat_rc", ("dense",), lambda o, m: o.to_tenmat(m.idx(list(range(1, N(o)))), m.idx([0])))
     add("to_sptenmat", ("sparse",), lambda o, m: o.to_sptenmat(m.idx([0])))
+    add("spmatrix_direct", ("sparse2",), lambda o, m: o.spmatrix())
+    add("to_sptenmat_2", ("sparse2",), lambda o, m: o.to_sptenmat(m.idx([1])))
+    add("full_2", ("sparse2",), lambda o, m: o.full())
     add("spmatrix", ("sparse",), lambda o, m: o.reshape((o.shape[0], n(o) // o.shape[0])).spmatrix())
     add("ctranspose", ("tenmat",), lambda o, m: o.ctranspose())
     add("from_array", ("tenmat",), lambda o, m: ttb.sptenmat.from_array(o.data, o.rindices, o.cindices, o.tshape))
